@@ -191,6 +191,11 @@ func (fc *FnCtx) fresh(prefix, sortName string) Term {
 // nilMapEmpty: in every unconstrained version of a map-domain array the nil map (reference 0) is
 // empty; versions derived by stores keep that because no store goes through reference 0.
 func (fc *FnCtx) nilMapEmpty(prefix, name, sortName string) {
+	// every slice value held in an unconstrained version of a heap array (struct field or pointee)
+	// is a Go slice: its length and offset are not negative
+	if (strings.HasPrefix(prefix, "F$") || strings.HasPrefix(prefix, "D$")) && strings.HasPrefix(sortName, "(Array Int (Slc ") {
+		fc.fact(fmt.Sprintf("(forall ((r Int)) (! (and (<= 0 (slen (select %s r))) (<= 0 (soff (select %s r)))) :pattern ((select %s r))))", name, name, name))
+	}
 	if !strings.HasPrefix(prefix, "MD$") || !strings.HasPrefix(sortName, "(Array Int (Array ") {
 		return
 	}
@@ -439,6 +444,54 @@ type frame struct {
 	recover bool
 	parent    *frame           // inlined frames: the frame of the caller
 	callBlock *ssa.BasicBlock  // and the block of the call instruction
+	priv      []privCell       // cells of locals that only this function writes (see privateCell)
+}
+
+// privCell: the heap cell of a local variable of the function under verification whose address is
+// used only by loads and stores of the function itself and is captured by closures that only load
+// from it. No callee can write such a cell (it never sees the address, and running one of the
+// closures does not write it), so a call that "may modify everything" leaves it unchanged.
+type privCell struct {
+	ref   Term
+	elemT types.Type
+}
+
+func privateCell(a *ssa.Alloc) bool {
+	var readOnly func(v ssa.Value, depth int) bool
+	readOnly = func(v ssa.Value, depth int) bool {
+		if depth > 4 || v.Referrers() == nil {
+			return false
+		}
+		for _, ref := range *v.Referrers() {
+			switch x := ref.(type) {
+			case *ssa.UnOp:
+				if x.Op != token.MUL {
+					return false
+				}
+			case *ssa.DebugRef:
+			case *ssa.Store:
+				if x.Addr != v || x.Val == v || depth > 0 {
+					return false // stored somewhere as a value, or written by a closure
+				}
+			case *ssa.MakeClosure:
+				fn, ok := x.Fn.(*ssa.Function)
+				if !ok {
+					return false
+				}
+				for k, b := range x.Bindings {
+					if b == v {
+						if k >= len(fn.FreeVars) || !readOnly(fn.FreeVars[k], depth+1) {
+							return false
+						}
+					}
+				}
+			default:
+				return false
+			}
+		}
+		return true
+	}
+	return readOnly(a, 0)
 }
 
 func (fc *FnCtx) newFrame(fn *ssa.Function, top bool) *frame {
